@@ -354,6 +354,26 @@ func genC14(e *emitter, tier string, seed uint64) {
 			}
 		}
 	}
+	// PUSHDATA4 pushes whose 4-byte length has non-zero upper bytes while only the low 16 bits' worth of data follows
+	// (undecodable: never a key-bearing type), next to the same scripts with an honest PUSHDATA4 length
+	for k := 0; k < 60; k++ {
+		key := append([]byte{2 + byte(r.n(2))}, r.bytes(32)...)
+		hi := []byte{byte(1 + r.n(3)), byte(r.n(2))}
+		pd4 := func(d []byte, upper []byte) []byte {
+			return append([]byte{0x4e, byte(len(d)), byte(len(d) >> 8), upper[0], upper[1]}, d...)
+		}
+		for _, up := range [][]byte{hi, {0, 0}, {0, 1}} {
+			ins(append(pd4(key, up), 0xac), "pushdata4-upper-bytes")                                              // P2PK shape
+			ins(append(append([]byte{0x51}, pd4(key, up)...), 0x51, 0xae), "pushdata4-upper-bytes")               // 1-of-1 multisig shape
+			ins(append(append([]byte{0x76, 0xa9}, pd4(r.bytes(20), up)...), 0x88, 0xac), "pushdata4-upper-bytes") // P2PKH-like
+			s := append(tmplP2PKH(r), 0x00, 0x63, 0x03, 0x6f, 0x72, 0x64, 0x51)
+			s = append(s, pd4(r.bytes(1+r.n(9)), up)...)
+			s = append(s, 0x00)
+			s = append(s, pd4(r.bytes(r.n(6)), up)...)
+			ins(append(s, 0x68), "pushdata4-upper-bytes") // inscription shape
+			ins(append([]byte{0x6a}, pd4(r.bytes(5), up)...), "pushdata4-upper-bytes")
+		}
+	}
 	// (4) random strings
 	n := 2000
 	if !quick {
